@@ -213,33 +213,26 @@ Proof.
   repeat split; congruence.
 Qed.
 
-Lemma compute_shape_static st : same_static st (fst (compute_shape st)) /\
-  aff_edits (fst (compute_shape st)) = aff_edits st.
+Lemma compute_shape_static st : same_static st (fst (compute_shape st)).
 Proof.
-  unfold compute_shape. destruct (grid_dims _ _ _ _) as [[nvol T]|e]; [|split; [apply same_static_refl | reflexivity]].
-  destruct (order_files st _ _ nvol T _) as [fi2 [[]|e]]; simpl; split; try reflexivity; repeat split.
+  unfold compute_shape. destruct (grid_dims _ _ _ _) as [[nvol T]|e]; [|apply same_static_refl].
+  destruct (order_files st _ _ nvol T _) as [fi2 [[]|e]]; simpl; repeat split.
 Qed.
 
-Lemma get_shape_static st : same_static st (fst (get_shape st)) /\ aff_edits (fst (get_shape st)) = aff_edits st.
+Lemma get_shape_static st : same_static st (fst (get_shape st)).
 Proof.
-  unfold get_shape. destruct (shape_dirty st); [apply compute_shape_static|].
-  split; [apply same_static_refl | reflexivity].
+  unfold get_shape. destruct (shape_dirty st); [apply compute_shape_static | apply same_static_refl].
 Qed.
 
 Lemma get_data_fst st : fst (get_data st) = fst (get_shape st).
 Proof. unfold get_data. destruct (get_shape st) as [s [sh|e]]; reflexivity. Qed.
 
 Lemma get_affine_static st : same_static st (fst (get_affine st)).
-Proof.
-  unfold get_affine. pose proof (get_shape_static st) as [H _].
-  destruct (get_shape st) as [s [sh|e]]; [|exact H]. simpl in H.
-  destruct (1 <? length (files_info s) / nvols_of_shape sh); simpl; [|exact H].
-  destruct H as [A1 [A2 [A3 [A4 [A5 [A6 [A7 A8]]]]]]]. repeat split; assumption.
-Qed.
+Proof. rewrite get_affine_fst. apply get_shape_static. Qed.
 
 Lemma to_nifti_static st vo em : same_static st (fst (to_nifti st vo em)).
 Proof.
-  unfold to_nifti. pose proof (get_shape_static st) as [H1 _]. rewrite <- get_data_fst in H1.
+  unfold to_nifti. pose proof (get_shape_static st) as H1. rewrite <- get_data_fst in H1.
   destruct (get_data st) as [s1 [[i sh]|e]]; [|exact H1]. simpl in H1.
   pose proof (get_affine_static s1) as H2.
   destruct (get_affine s1) as [s2 [[i0 col]|e]]; simpl in H2; [|eapply same_static_trans; eassumption].
@@ -290,8 +283,7 @@ Record wfx (st : state) : Prop := mk_wfx {
   x_tr_nd : NoDup (rep_times st);
   x_tr_in : forall x, In x (rep_times st) <-> In x (map f_tr (files st));
   x_pe_nd : NoDup (pe_dirs st);
-  x_pe_in : forall x, In x (pe_dirs st) <-> In x (map f_phase (files st));
-  x_edits : aff_edits st <> [] -> 1 < length (pos_vals st)
+  x_pe_in : forall x, In x (pe_dirs st) <-> In x (map f_phase (files st))
 }.
 
 Definition inv (st : state) : Prop := wf st /\ wfx st /\ canonical st.
@@ -350,7 +342,6 @@ Proof.
   - intros x. tauto.
   - constructor.
   - intros x. tauto.
-  - intros H. congruence.
 Qed.
 
 Lemma set_add_length_ge {A} (eqb : A -> A -> bool) x l : length l <= length (set_add eqb x l).
@@ -364,7 +355,7 @@ Proof.
   destruct (negb (congruent st f)); [discriminate|].
   destruct ((cfg_time st || cfg_vec st) && existsb (tuple_eqb (sorting_tuple st f)) (tuples st)); [discriminate|].
   injection Ha as <-. split; [|intros H; discriminate].
-  destruct Hx as [X1 X2 X3 X4 X5].
+  destruct Hx as [X1 X2 X3 X4].
   assert (Hfiles : forall g : file -> option Qc, True) by auto. clear Hfiles.
   constructor; simpl.
   - apply set_add_nodup; [apply oq_eqb_spec | exact X1].
@@ -373,29 +364,23 @@ Proof.
   - apply set_add_nodup; [apply ostr_eqb_spec | exact X3].
   - intros x. rewrite (set_add_in ostr_eqb ostr_eqb_spec). unfold files. simpl. rewrite !map_app, in_app_iff. simpl.
     fold (files st). rewrite X4. intuition congruence.
-  - intros He. specialize (X5 He).
-    match goal with |- _ < length (set_add qc_eqb ?x _) => pose proof (set_add_length_ge qc_eqb x (pos_vals st)) end. lia.
 Qed.
 
 Lemma wfx_static st st' :
-  wfx st -> same_static st st' -> Permutation (files st') (files st) ->
-  (aff_edits st' <> [] -> 1 < length (pos_vals st)) -> wfx st'.
+  wfx st -> same_static st st' -> Permutation (files st') (files st) -> wfx st'.
 Proof.
-  intros [X1 X2 X3 X4 X5] [A1 [A2 [A3 [A4 [A5 [A6 [A7 A8]]]]]]] Hp He.
+  intros [X1 X2 X3 X4] [A1 [A2 [A3 [A4 [A5 [A6 [A7 A8]]]]]]] Hp.
   constructor.
   - rewrite A7. exact X1.
   - intros x. rewrite A7, X2. split; apply Permutation_in, Permutation_map; [symmetry|]; exact Hp.
   - rewrite A6. exact X3.
   - intros x. rewrite A6, X4. split; apply Permutation_in, Permutation_map; [symmetry|]; exact Hp.
-  - rewrite A3. exact He.
 Qed.
 
 Lemma inv_get_shape st : inv st -> inv (fst (get_shape st)).
 Proof.
   intros [Hwf [Hx Hcan]]. split; [apply get_shape_wf, Hwf|]. split.
-  - destruct (get_shape_static st) as [Hs He].
-    apply (wfx_static st); [exact Hx | exact Hs | apply get_shape_files, Hwf|].
-    rewrite He. apply (x_edits st Hx).
+  - apply (wfx_static st); [exact Hx | apply get_shape_static | apply get_shape_files, Hwf].
   - unfold get_shape. destruct (shape_dirty st) eqn:Hd; [|exact Hcan].
     destruct (compute_shape st) as [st' r] eqn:Ec. simpl. intros Hd'.
     destruct Hwf as [Hwf0 Hclean].
@@ -410,27 +395,8 @@ Proof.
     exists sh. split; [symmetry; exact Hr|]. split; [symmetry; apply (Hf sh eq_refl) | reflexivity].
 Qed.
 
-Lemma canonical_edits st ed : wf0 st -> canonical st -> canonical (with_edits st ed).
-Proof.
-  intros Hwf Hcan Hd. destruct (Hcan Hd) as [sh [H1 [H2 H3]]].
-  assert (Hsame : same_stack st (with_edits st ed)) by (apply same_stack_refl_files; reflexivity).
-  destruct (compute_shape_det st (with_edits st ed) Hwf (wf0_with_edits st ed Hwf) Hsame) as [Hr Hf].
-  exists sh. split; [rewrite <- Hr; exact H1|]. split; [|exact H3].
-  rewrite <- (Hf sh H1). exact H2.
-Qed.
-
 Lemma inv_get_affine st : inv st -> inv (fst (get_affine st)).
-Proof.
-  intros Hinv. pose proof (inv_get_shape st Hinv) as [Hwf1 [Hx1 Hcan1]].
-  unfold get_affine. destruct (get_shape st) as [s [sh|e]] eqn:E; [|split; [exact Hwf1 | split; assumption]].
-  simpl in *.
-  destruct (1 <? length (files_info s) / nvols_of_shape sh) eqn:Hf; simpl; [|split; [exact Hwf1 | split; assumption]].
-  split; [apply wf_with_edits, Hwf1|]. split; [|apply canonical_edits; [apply Hwf1 | exact Hcan1]].
-  assert (Hok : snd (get_shape st) = Ok sh) by (rewrite E; reflexivity).
-  destruct (get_shape_ok_clean st sh Hok) as [Hd Hcs]. rewrite E in Hd, Hcs. simpl in Hd, Hcs.
-  rewrite (files_per_vol s sh Hwf1 Hd Hcs) in Hf. apply Nat.ltb_lt in Hf.
-  destruct Hx1 as [X1 X2 X3 X4 X5]. constructor; simpl; try assumption. intros _. exact Hf.
-Qed.
+Proof. intros Hinv. rewrite get_affine_fst. apply inv_get_shape, Hinv. Qed.
 
 Lemma inv_to_nifti st vo em : inv st -> inv (fst (to_nifti st vo em)).
 Proof.
@@ -446,7 +412,7 @@ Proof.
   { split; [|intros H; discriminate]. apply wf0_with_shape, wf0_reorder; [apply Hwf2|].
     split; [apply Permutation_map, rev_chunks_perm | left; apply rev_chunks_perm]. }
   split; [exact Hwf'|]. split; [|intros H; discriminate].
-  apply (wfx_static s2); [exact Hx2 | repeat split | | apply (x_edits s2 Hx2)].
+  apply (wfx_static s2); [exact Hx2 | repeat split|].
   unfold files. simpl. apply Permutation_map, rev_chunks_perm.
 Qed.
 
@@ -552,8 +518,6 @@ Proof.
   { pose proof (get_shape_ok_clean st1 sh) as H. rewrite E1 in H. apply H. reflexivity. }
   assert (Hcl2 : shape_dirty s2 = false /\ cached_shape s2 = Some sh).
   { pose proof (get_shape_ok_clean st2 sh) as H. rewrite E2 in H. apply H. reflexivity. }
-  pose proof (files_per_vol s1 sh (proj1 Hs1) (proj1 Hcl1) (proj2 Hcl1)) as Hfpv1.
-  pose proof (files_per_vol s2 sh (proj1 Hs2) (proj1 Hcl2) (proj2 Hcl2)) as Hfpv2.
   (* the sets read by the header code *)
   assert (Hps : Permutation (files s1) (files s2)) by (rewrite Hpf1, Hpf2; exact Hp).
   assert (Htr : single_some (rep_times s1) = single_some (rep_times s2)).
@@ -564,18 +528,8 @@ Proof.
   { destruct Hs1 as [_ [X1 _]], Hs2 as [_ [X2 _]]. apply single_some_eq; [apply X1 | apply X2|].
     intros x. rewrite (x_pe_in s1 X1), (x_pe_in s2 X2).
     split; apply Permutation_in, Permutation_map; [|symmetry]; exact Hps. }
-  unfold get_affine. rewrite Hag1, Hag2. rewrite <- Hfi.
-  destruct (1 <? length (files_info s1) / nvols_of_shape sh) eqn:Hfpv; simpl.
-  - f_equal. unfold nifti_result, nifti_flip, data_ref, data_dtype. simpl. rewrite <- Hfi, Htr, Hpe. reflexivity.
-  - apply Nat.ltb_ge in Hfpv.
-    assert (He1 : aff_edits s1 = []).
-    { destruct (aff_edits s1) eqn:E; [reflexivity|]. exfalso.
-      destruct Hs1 as [_ [X1 _]]. assert (1 < length (pos_vals s1)); [apply (x_edits s1 X1); rewrite E; discriminate | lia]. }
-    assert (He2 : aff_edits s2 = []).
-    { destruct (aff_edits s2) eqn:E; [reflexivity|]. exfalso.
-      destruct Hs2 as [_ [X2 _]]. assert (1 < length (pos_vals s2)); [apply (x_edits s2 X2); rewrite E; discriminate|].
-      rewrite <- Hfi in Hfpv2. lia. }
-    rewrite He1, He2. simpl. f_equal. unfold nifti_result, nifti_flip, data_ref, data_dtype. rewrite <- Hfi, Htr, Hpe. reflexivity.
+  unfold get_affine. rewrite Hag1, Hag2. rewrite <- Hfi. simpl.
+  f_equal. unfold nifti_result, nifti_flip, data_ref, data_dtype. simpl. rewrite <- Hfi, Htr, Hpe. reflexivity.
 Qed.
 
 (* ------------------------------------------------------------------------------------------ *)
@@ -609,8 +563,8 @@ Lemma step_cfg st o : cfg_time (fst (step st o)) = cfg_time st /\ cfg_vec (fst (
 Proof.
   destruct o; simpl.
   - destruct (add_dcm st f) eqn:E; simpl; [|auto]. destruct (add_dcm_files _ _ _ E) as [_ H]. exact H.
-  - destruct (get_shape_static st) as [[H1 [H2 _]] _]. destruct (get_shape st); simpl in *; auto.
-  - destruct (get_shape_static st) as [[H1 [H2 _]] _]. rewrite <- get_data_fst in H1, H2. destruct (get_data st); simpl in *; auto.
+  - destruct (get_shape_static st) as [H1 [H2 _]]. destruct (get_shape st); simpl in *; auto.
+  - destruct (get_shape_static st) as [H1 [H2 _]]. rewrite <- get_data_fst in H1, H2. destruct (get_data st); simpl in *; auto.
   - destruct (get_affine_static st) as [H1 [H2 _]]. destruct (get_affine st); simpl in *; auto.
   - destruct (to_nifti_static st vo embed) as [H1 [H2 _]]. destruct (to_nifti st vo embed); simpl in *; auto.
   - unfold to_nifti_wrapper. destruct (to_nifti_static st vo true) as [H1 [H2 _]]. destruct (to_nifti st vo true); simpl in *; auto.
